@@ -281,7 +281,9 @@ def execute_anim(case, ctx):
             for k in range(1, cfg["stale"] + 1):
                 fig = plt.figure(figsize=(0.2, 0.2), dpi=20)
                 fig.patch.set_facecolor((250 / 255, 250 / 255, 1.0))
-                gm._save_frame(fig, frames_dir, k)
+                # written exactly as an earlier run of the library would have left them
+                fig.savefig(f"{frames_dir}/frame_{k:02d}.png", bbox_inches="tight")
+                plt.close(fig)
             ctx.fault("stale_frames_dir")
         if cfg["plot"] == "stub":
             plot = stub_plotter(counter)
